@@ -33,9 +33,9 @@ Fixpoint fnodupb (l : list sfield) : bool :=
 
 (* a variable name that can be set: non-empty (AddProcessEnv ignores the empty name) and without '=' (W7) *)
 Definition env_name_ok (n : string) : bool := negb (String.eqb n "") && Nat.eqb (count_char "="%char n) 0.
-(* an existing environment entry: key=value with a non-empty key (W3) *)
-Definition env_entry_ok (s : string) : bool :=
-  match cut "="%char s with (k, Some _) => negb (String.eqb k "") | (_, None) => false end.
+(* an existing environment entry: "key=value", or a bare "key" without '=' whose key is its whole text;
+   the key is non-empty (W3) *)
+Definition env_entry_ok (s : string) : bool := negb (String.eqb (ref_env_key s) "").
 (* the scalars are a record of optional fields: each field at most once, the memory limit an integer *)
 Definition scal_ok (sc : list (sfield * sval)) : bool :=
   fnodupb (map fst sc) && match flookup MemLimit sc with Some (VZ _) | None => true | Some _ => false end.
@@ -53,6 +53,19 @@ Definition wf_cont (c : container) : bool :=
   nodupb (map d_path (c_devices c)) &&
   nodupb (map fst (r_hp (c_res c))).
 Definition wf_gen (s : spec) (a : adjustment) : bool := wf_adj a && wf_cont (sp_c s).
+
+(* the environment AdjustEnv is to produce, as a LIST: the existing entries in their order — an entry
+   the adjustment sets is replaced in place, one it removes (and does not set) is dropped, every other
+   one, with or without '=', stays as it is — followed by the new variables in the order of the adjustment *)
+Definition env_expected (es : list (string * string)) (env : list string) : list string :=
+  flat_map (fun s => match kfind fst (ref_env_key s) (r_adds fst es) with
+                     | Some e => [ref_env_oci e]
+                     | None => if smem (ref_env_key s) (r_dels fst es) then [] else [s]
+                     end) env
+  ++ map ref_env_oci (filter (fun e => negb (smem (fst e) (map ref_env_key env))) (r_adds fst es)).
+(* the entries no entry of the adjustment names *)
+Definition env_unnamed (es : list (string * string)) (s : string) : bool :=
+  negb (smem (ref_env_key s) (map (fun e => rawkey (fst e)) es)).
 
 (* Go maps have distinct keys (the annotation and the unified map of the adjustment) *)
 Definition wf_maps (a : adjustment) : bool :=
